@@ -82,3 +82,12 @@ CHECKS["C10"] = _c(
     "Trusted: reference form encoder, policy signer (documentation vector) and evaluator. Duplicated field names and ${filename} not generated; 'every field must be covered by a condition' not judged.",
     "DESIGN.md 3/C10",
 )
+
+CHECKS["C09"] = _c(
+    "exploration",
+    "runtime monitoring, metamorphic oracle: the same logical request is executed under many frame partitions and Pending schedules of its body (custom http_body with controlled poll results, paused tokio clock) and every outcome is compared with the single-frame never-pending execution",
+    "harness (raw request driver, framed bodies)",
+    "For the four body kinds of the statement (plus digest-signed bodies), valid and invalid instances, the check runs every 2-frame split of small bodies, token-adjacent and sampled splits of large ones, 3-frame splits around structural tokens, 1-byte frames, random k-partitions and inserted empty frames, crossed with five Pending schedules (incl. deferred wake-ups through the timer), and requires status, error code, success body, backend method, decoded input, delivered bytes, terminal body state, credentials and hook events to equal those of the reference framing. Held on the executions observed.",
+    "Trusted: nothing beyond the harness's FramedBody (it yields exactly the bytes it was given - checked by the reference run being reproducible). The reference framing is one frame through the same boxed-body path.",
+    "DESIGN.md 3/C09",
+)
